@@ -254,19 +254,55 @@ func init() {
 						}
 					}
 					if i%2 == 1 {
+						// the URL the setter is called on is reached by every route (parsed, cloned, obtained by resolution, switched to a
+						// special scheme by the protocol setter), and the call the setters make is also made directly
 						for w := 3; w <= 4; w++ {
-							u, err := defaultCfg.Parser.Parse("http://x/")
-							if err != nil {
-								break
-							}
-							applySetter(u, w, h)
-							exp := "x"
-							if ok {
-								exp = want
-							}
-							if got := u.Hostname(); got != exp {
-								c.Report(Finding{Class: "violation", What: fmt.Sprintf("%s(%q) on http://x/ leaves the host %q, the standard's host setter gives %q", setterNames[w], h, got, exp),
-									Case: Case{Kind: "hist", Cfg: defaultCfg.Desc, Input: "http://x/", Ops: []string{Op{K: "s", W: w, A: h}.String()}, Family: "ipv4-setters", Index: i}})
+							for route := 0; route < 5; route++ {
+								if i < total && route > 0 && (i/2+route)%4 != 0 {
+									continue
+								}
+								u, err := defaultCfg.Parser.Parse("http://x/")
+								if err != nil {
+									break
+								}
+								how := setterNames[w]
+								switch route {
+								case 1:
+									u = u.Clone()
+									how += " on a clone of"
+								case 2:
+									if u, err = u.Parse("?q"); err != nil {
+										continue
+									}
+									u.SetSearch("")
+									how += " on a resolution result of"
+								case 3:
+									if u, err = defaultCfg.Parser.Parse("https://x/"); err != nil {
+										continue
+									}
+									u.SetProtocol("http")
+									how += " after SetProtocol on"
+								}
+								if route == 4 {
+									how = "BasicParser with State" + []string{"Host", "Hostname"}[w-3] + " override on"
+									func() {
+										defer func() { recover() }()
+										defaultCfg.Parser.BasicParser(h, nil, u, []url.State{url.StateHost, url.StateHostname}[w-3])
+									}()
+								} else {
+									applySetter(u, w, h)
+								}
+								exp := "x"
+								if ok {
+									exp = want
+								}
+								if got := u.Hostname(); got != exp {
+									c.Report(Finding{Class: "violation", What: fmt.Sprintf("%s http://x/ with %q leaves the host %q, the standard's host setter gives %q", how, h, got, exp),
+										Case: Case{Kind: "hist", Cfg: defaultCfg.Desc, Input: "http://x/", Ops: []string{how + ": " + Op{K: "s", W: w, A: h}.String()}, Family: "ipv4-setters", Index: i}})
+								} else if (u.IsIPv4()) != (ok && d.Ask("S4E "+hx(asciiLower(pctDecode(h)))) == "1") && route > 0 {
+									c.Report(Finding{Class: "violation", What: fmt.Sprintf("%s http://x/ with %q: IsIPv4()=%v disagrees with the ends-in-a-number checker", how, h, u.IsIPv4()),
+										Case: Case{Kind: "hist", Cfg: defaultCfg.Desc, Input: "http://x/", Ops: []string{how + ": " + Op{K: "s", W: w, A: h}.String()}, Family: "ipv4-setters", Index: i}})
+								}
 							}
 						}
 						// and the protocol setter never turns an opaque host into an address (nor the URL into a special one)
